@@ -105,9 +105,55 @@ func Discharge(obls []*Obligation, opts SolveOpts) []*Outcome {
 }
 
 func dischargeOne(i int, o *Obligation, opts SolveOpts) *Outcome {
+	res := dischargeGoal(i, o, o.Goal, "", opts)
+	if res.Result == "proved" || o.MustFail || len(o.Parts) < 2 || res.Result == "refuted" {
+		return res
+	}
+	// fallback: prove the conjuncts one by one
+	start := time.Now()
+	allOK := true
+	failed := ""
+	var firstFail *Outcome
+	for k, p := range o.Parts {
+		r := dischargeGoal(i, o, p, fmt.Sprintf("_part%d", k), opts)
+		if r.Result != "proved" {
+			allOK = false
+			failed += fmt.Sprintf(" conjunct %d: %s;", k, r.Result)
+			if firstFail == nil {
+				firstFail = r
+			} else if r.File != "" {
+				os.Remove(r.File)
+			}
+			if r.Result == "refuted" {
+				break
+			}
+		}
+	}
+	if allOK {
+		res.Result = "proved"
+		res.Backend = "conjuncts"
+		res.Ms += time.Since(start).Milliseconds()
+		if res.File != "" && !opts.KeepQueries {
+			os.Remove(res.File)
+			res.File = ""
+		}
+		return res
+	}
+	if firstFail != nil {
+		if res.File != "" {
+			os.Remove(res.File)
+		}
+		firstFail.Per["failing"] = failed
+		firstFail.Ms += res.Ms
+		return firstFail
+	}
+	return res
+}
+
+func dischargeGoal(i int, o *Obligation, goal Term, suffix string, opts SolveOpts) *Outcome {
 	res := &Outcome{Obl: o, Per: map[string]string{}}
-	text := o.Ctx.Render(o.Assumptions, o.Goal, true, o.Inputs)
-	file := filepath.Join(opts.Dir, fmt.Sprintf("q%04d_%s.smt2", i, mangle(truncate(o.Name, 80))))
+	text := o.Ctx.Render(o.Assumptions, goal, true, o.Inputs)
+	file := filepath.Join(opts.Dir, fmt.Sprintf("q%04d_%s%s.smt2", i, mangle(truncate(o.Name, 80)), suffix))
 	header := fmt.Sprintf("; obligation %s\n; %s\n; at %s\n", o.Name, strings.ReplaceAll(o.Desc, "\n", " "), o.Pos)
 	if err := os.WriteFile(file, []byte(header+text), 0o644); err != nil {
 		res.Result = "error"
@@ -142,7 +188,7 @@ func dischargeOne(i int, o *Obligation, opts SolveOpts) *Outcome {
 		}
 		if dropped > 0 {
 			file2 := strings.TrimSuffix(file, ".smt2") + "_slim.smt2"
-			if err := os.WriteFile(file2, []byte(header+o.Ctx.Render(slim, o.Goal, false, nil)), 0o644); err == nil {
+			if err := os.WriteFile(file2, []byte(header+o.Ctx.Render(slim, goal, false, nil)), 0o644); err == nil {
 				nproc++
 				go func() {
 					a, out := runSolver(ctx, solvers[0], file2, timeout)
